@@ -1,5 +1,6 @@
 import SkimModel.Driver.Util
 import SkimModel.Model.Session
+import SkimModel.Model.Editor
 /-
 Trace acceptance for headless sessions (C01, C14, session parts of C10/C05).
 
@@ -33,6 +34,10 @@ structure Ctx where
   step  : Nat := 0
   lastSel : List (Nat × Nat) := []
   lastWasSel : Bool := true
+  lastCur : Option Nat := none                    -- item_idx under the cursor at the last snapshot
+  runCmd : List (Nat × Nat) := []                 -- run number -> command id
+  multi : Bool := false
+  ed : SkimModel.Editor.Ed := {}                  -- the query editor driven by the same editing events (C18's model)
 
 def itemId (cid pos : Nat) : Nat := cid * 100000 + pos
 
@@ -89,6 +94,52 @@ def expectedList (c : Ctx) (qid : Nat) : List Nat :=
 def readFlag (o : String) (actual : Bool) : Bool × Bool :=   -- (rd flag, consistent?)
   if o == "1" then (true, actual) else if o == "0" then (false, true) else (true, true)
 
+def kvGet (kvs : List String) (k : String) : String :=
+  match kvs.find? (fun kv => kv.startsWith (k ++ "=")) with
+  | some kv => (kv.drop (k.length + 1)).toString
+  | none => ""
+
+/-- C05: judge the session's `SkimOutput` against what the state said at the last snapshot of the REAL
+    model (cursor row item / selected set in key order), against the query editor model driven by the same
+    editing events, and against the event that ended the session. -/
+def judgeOut (c : Ctx) (s : S) (kvs : List String) : Ctx :=
+  if kvGet kvs "abort" == "" then flagBad c ("session-did-not-return:" ++ " ".intercalate kvs) else
+  let isAbort := b (kvGet kvs "abort")
+  let ev := kvGet kvs "ev"
+  let last := kvGet kvs "last"
+  -- how the session ended according to the trace: Uabo / Uacc were replayed into s.finished
+  let c := match s.finished with
+    | some true => if isAbort && ev == "abort" then c else flagBad c s!"abort-not-flagged:abort={isAbort},ev={ev}"
+    | some false => if !isAbort && ev == "accept" then c else flagBad c s!"accept-misreported:abort={isAbort},ev={ev}"
+    | none => flagMis c "session-ended-without-accept-or-abort-in-trace"
+  if isAbort then c else
+  -- the items
+  let keys := sortKeys c.lastSel
+  let cidOf (run : Nat) : Nat := match c.runCmd.find? (fun e => e.1 == run) with
+    | some e => e.2
+    | none => c.cid
+  let want : List Nat :=
+    if c.multi && !keys.isEmpty then keys.map (fun k => itemId (cidOf k.1) (k.2 + c.hl))
+    else match c.lastCur with
+      | some i => [itemId c.cid (i + c.hl)]
+      | none => []
+  let got := decNats (kvGet kvs "items")
+  let c := if got == want then c else flagBad c s!"accept-items:got[{encNats got}]want[{encNats want}]"
+  let c := if kvGet kvs "ptr" == "1" then c else flagBad c "returned-item-is-not-the-supplied-object"
+  -- query / command query exactly as edited
+  let wq := encStr c.ed.fz.line
+  let wc := encStr c.ed.cmd.line
+  let c := if kvGet kvs "query" == wq then c else flagBad c s!"query-not-as-edited:got[{kvGet kvs "query"}]want[{wq}]"
+  let c := if kvGet kvs "cmd" == wc then c else flagBad c s!"cmd-query-not-as-edited:got[{kvGet kvs "cmd"}]want[{wc}]"
+  -- the key / event that ended the session (only when the script ended it itself)
+  let wa := kvGet kvs "want_arg"
+  let wk := kvGet kvs "want_key"
+  let c := if last != "accept" || wa == "any" || kvGet kvs "arg" == wa then c
+           else flagBad c s!"final-event-arg:got[{kvGet kvs "arg"}]want[{wa}]"
+  let c := if last != "accept" || wk == "any" || kvGet kvs "key" == wk then c
+           else flagBad c s!"final-key:got[{kvGet kvs "key"}]want[{wk}]"
+  c
+
 def applyTok (m : Nat → Nat → Bool) (cs : Ctx × S) (tok : List String) : Ctx × S :=
   let c := { cs.1 with step := cs.1.step + 1 }
   let s := cs.2
@@ -113,7 +164,8 @@ def applyTok (m : Nat → Nat → Bool) (cs : Ctx × S) (tok : List String) : Ct
   | ["Uq", q] => ({ c with lastWasSel := false }, handleUser s (.setQuery (q.toNat?.getD 0)))
   | ["Uc", cid, run] =>
       let cid := cid.toNat?.getD 0
-      ({ c with cid := cid, lastWasSel := false }, handleUser s (.setCmd (run.toNat?.getD 0) (srcOf c cid)))
+      ({ c with cid := cid, lastWasSel := false, runCmd := (run.toNat?.getD 0, cid) :: c.runCmd },
+        handleUser s (.setCmd (run.toNat?.getD 0) (srcOf c cid)))
   | ["Ut", idx] => ({ c with lastWasSel := true }, handleUser s (.toggle (idx.toNat?.getD 0)))
   | ["Usa"] => ({ c with lastWasSel := true }, handleUser s .selectAll)
   | ["Uta"] => ({ c with lastWasSel := true }, handleUser s .toggleAll)
@@ -146,7 +198,18 @@ def applyTok (m : Nat → Nat → Bool) (cs : Ctx × S) (tok : List String) : Ct
       let c2 := if quiet && kind != want then flagBad c1 s!"wrong-decision:{kind},expected={want},matching={total}" else c1
       (c2, s)
   | ["IDLEFAIL"] => (flagBad c "not-quiescent-without-keystroke", s)
-  | "OUT" :: _ => (c, s)
+  | ["CUR", i] => ({ c with lastCur := i.toNat? }, s)
+  | ["EV", e] =>
+      let cls : SkimModel.Editor.Cls := { isAlnum := Char.isAlphanum, isWs := Char.isWhitespace }
+      let a : Option SkimModel.Editor.Action := match e.splitOn ":" with
+        | ["add", n] => n.toNat?.map (fun k => SkimModel.Editor.Action.addChar (Char.ofNat k))
+        | ["bdel"] => some .backwardDeleteChar
+        | ["ti"] => some .toggleInteractive
+        | _ => none
+      (match a with
+       | some a => ({ c with ed := SkimModel.Editor.act cls c.ed a, step := c.step - 1 }, s)
+       | none => (flagMis c s!"bad-editing-event:{e}", s))
+  | "OUT" :: kvs => (judgeOut c s kvs, s)
   | _ => (flagMis c s!"bad-token:{" ".intercalate tok}", s)
 
 def parseHeader (toks : List (List String)) : Ctx × Opts × Nat × Nat × Nat :=
@@ -186,7 +249,16 @@ def answer (_case impl : String) : String :=
   let toks := (impl.splitOn ";").map (fun t => (t.splitOn " ").filter (· ≠ ""))
   let toks := toks.filter (fun t => !t.isEmpty)
   let (c0, o, q0, cid0, run0) := parseHeader (toks.filter isHeader)
-  let c0 := { c0 with cid := cid0 }
+  let initQ := match (toks.find? (fun t => t.head? == some "OUT")) with
+    | some t => decStr (kvGet t "init_q")
+    | none => []
+  let inter := match (toks.find? (fun t => t.head? == some "OUT")) with
+    | some t => kvGet t "inter" == "1"
+    | none => false
+  let ed0 : SkimModel.Editor.Ed :=
+    { fz := { before := initQ.reverse }, cmd := { before := if inter then ['0'] else [] },
+      mode := if inter then .cmd else .query }
+  let c0 := { c0 with cid := cid0, runCmd := [(run0, cid0)], multi := o.multi, ed := ed0 }
   let m : Nat → Nat → Bool := fun q x => hitQ c0 q x
   let s0 : S := { (initWith o q0 (srcOf c0 cid0) : S) with run := run0 }
   let r := (toks.filter (fun t => !isHeader t)).foldl (applyTok m) (c0, s0)
